@@ -446,6 +446,8 @@ class Folder:
                 raise Undecidable(f"field {e.attr} of {base.cls}")
             if isinstance(base, Opaque):
                 return Opaque(f"{base.text}.{e.attr}")
+            if isinstance(base, (str, list, dict, tuple)) and callable(getattr(type(base), e.attr, None)):
+                return Opaque(f"<bound method {type(base).__name__}.{e.attr}>")      # a method object used as a value (not called)
             if isinstance(base, (int, float, complex)) and not isinstance(base, bool) and e.attr in ("real", "imag"):
                 return getattr(base, e.attr)
             if isinstance(base, sp.Basic) and e.attr in ("real", "imag"):
